@@ -414,4 +414,87 @@ example :
       | _, _ => false) = true := by
   decide +kernel
 
+/-! ### round 4 — declarative boundary rules, maximal munch, one closure theorem -/
+
+/-- **Comment boundary.** A comment token starts with the first matching opener and extends exactly to the first newline at
+    or after the opener's end (or to the end of the source); it does not contain that newline. -/
+theorem comment_boundary (d : TokenDef) (hwl : wfLayout d = true) (src : Str) (b e : Nat) (t : Token)
+    (h : parseComment d src b = .ok (e, t)) :
+    ∃ pair, firstOpen d.comment src b = .ok pair ∧ t.type = T.comment ∧ t.string = slice src b e ∧
+      b + pair.1.length ≤ e ∧ '\n' ∉ slice src (b + pair.1.length) e ∧ (e = src.length ∨ src[e]? = some '\n') :=
+  parseComment_spec hwl h
+
+/-- non-vacuity, and the shape of a seeded mutation: an empty comment `#` directly followed by a newline is the
+    one-character token `#`; the next line is lexed on its own -/
+example :
+    (match parseImpl pyDef ['#','\n','x',' ','#','\n'] with
+      | .ok toks => decide (toks.map simplify = [(T.comment, ['#']), (T.lineBreak, ['\n']), (T.name, ['x']),
+          (T.whiteSpace, [' ']), (T.comment, ['#']), (T.lineBreak, ['\n'])])
+      | .error _ => false) = true := by
+  decide +kernel
+
+/-- **The closing rule of string literals, declaratively.** `IsCloser src close body idx`: the closing sequence occurs at
+    `idx ≥ body` and the run of backslashes in front of it, counted inside the body only (`bsRun`), is even. The literal read
+    by `parse_quote` starts with the first matching opener and ends right after the *first* closer; if the source has no
+    closer the literal is unterminated. Same rule for plain, `r` and `f` prefixes and for all three quote kinds. -/
+theorem quote_closing_rule (d : TokenDef) (hw : wf d = true) (src : Str) (b e : Nat) (t : Token)
+    (h : parseQuote d src b = .ok (e, t)) :
+    ∃ pair, firstOpen d.quote src b = .ok pair ∧ t.string = slice src b e ∧
+      ((∃ idx, IsCloser src pair.2 (b + pair.1.length) idx ∧
+          (∀ j, b + pair.1.length ≤ j → j < idx → ¬ IsCloser src pair.2 (b + pair.1.length) j) ∧ e = idx + pair.2.length) ∨
+       ((∀ j, ¬ IsCloser src pair.2 (b + pair.1.length) j) ∧ b + pair.1.length ≤ e ∧ e ≤ src.length)) :=
+  parseQuote_spec hw h
+
+/-- the imperative escape count of the model is the declarative backslash run -/
+theorem escape_run_is_bsRun (src : Str) (body idx : Nat) (hidx : idx ≤ src.length) (hb : body ≤ idx) :
+    escapeRun src body idx (idx + 1) 0 = bsRun (slice src body idx) := by
+  rw [escapeRun_eq src body idx hidx (idx + 1) 0 (by omega) (by omega)]; simp
+
+/-- non-vacuity, and the shape of a seeded mutation: the raw string `r'\''` is one literal (the quote after the backslash is
+    escaped also in a raw string), `'a\\'` ends at its second quote, `"""a\""""` is one literal -/
+example :
+    (match parseImpl pyDef ['r','\'','\\','\'','\'',' ','x'], parseImpl pyDef ['\'','a','\\','\\','\'','+'],
+        parseImpl pyDef ['"','"','"','a','\\','"','"','"','"',' '] with
+      | .ok a, .ok b, .ok c => decide ((a.map simplify).head? = some (T.string, ['r','\'','\\','\'','\'']) ∧
+          (b.map simplify).head? = some (T.string, ['\'','a','\\','\\','\'']) ∧
+          (c.map simplify).head? = some (T.string, ['"','"','"','a','\\','"','"','"','"']))
+      | _, _, _ => false) = true := by
+  decide +kernel
+
+/-- **Maximal munch, declaratively.** The first token of a non-empty rest `s` satisfies `TokSpec`: the dispatched domain is
+    the first one in the analyse order whose class test accepts `s` (`Dispatch`); the token stands for exactly `s.take e`;
+    run tokens (white space, numbers, names) are the longest prefix inside their alphabet (`LongestRun`); a symbol is the
+    longest combined symbol of three, then two characters, else one symbol character (`SymbolMunch`); comments and string
+    literals obey `comment_boundary` / `quote_closing_rule`. -/
+theorem first_token_spec (d : TokenDef) (hw : wf d = true) (hwl : wfLayout d = true) (s : Str) (hne : s ≠ []) (e : Nat) (t : Token)
+    (h : Lexer.step d s = .ok (e, t)) : TokSpec d s e t :=
+  step_spec hw hwl hne h
+
+/-- **lex ⊆ spec.** The whole raw token sequence of `parse_impl` (up to source maps) is described token by token by `TokSpec`
+    of what is left of the source. -/
+theorem lex_meets_spec (d : TokenDef) (hw : wf d = true) (hwl : wfLayout d = true) (s : Str) (L : List (Nat × Str))
+    (h : lexS d s = .ok L) : LexSpec d s L :=
+  lexS_spec hw hwl s.length s L (Nat.le_refl _) h
+
+/-- non-vacuity: `a<<=b` lexes (so `lex_meets_spec` applies) into `a`, `<<`, `=`, `b` — `<<` is the longest combined symbol,
+    `<<=` is not one -/
+example : lexS pyDef ['a','<','<','=','b'] = .ok [(T.name, ['a']), (127, ['<','<']), (94, ['=']), (T.name, ['b'])] := by rfl
+
+/-- **One closure theorem over the layout rewrites.** `LayoutEq` is the equivalence generated by the layout steps (blanks /
+    blank lines, trailing comment, comment-only line — inserted or removed — and re-indentation by another unit). Layout
+    equivalent sources have the same `Tokenizer.parse` up to source maps. -/
+theorem layout_closure (d : TokenDef) (hr : layoutReady d) (s s' : Str) (h : LayoutEq d s s') :
+    (tokenize d s).map (List.map simplify) = (tokenize d s').map (List.map simplify) :=
+  h.tokenize hr
+
+/-- non-vacuity: two steps composed, one of them backwards: `a␣=1` ~ `a=1` (blank removed) ~ … reflexivity/transitivity -/
+example : LayoutEq pyDef ['a',' ','=','1'] ['a','=','1'] := by
+  have pre : TokPrefix pyDef ([] ++ ['=','1']) ([' '] ++ ([] ++ ['=','1'])) (['a'] ++ []) [simplify ⟨T.name, ['a'], mkMap ['a','=','1'] 0 1⟩] :=
+    TokPrefix.cons (dom := Dom.identifier) (by simp) rfl rfl (fun h => absurd h (by decide))
+      (fun _ => ⟨fun h => absurd h (by decide), fun h => absurd h (by decide), fun _ h => absurd h (by decide),
+        fun h => absurd h (by decide), fun h => absurd h (by decide)⟩) TokPrefix.nil
+  exact LayoutEq.trans (LayoutEq.symm (LayoutEq.step
+    (LayoutStep.blank ['a'] [] ['=','1'] [' '] _ [(94, ['=']), (48, ['1'])] (by simp) (by decide) (Or.inl rfl) (by simp) rfl pre rfl)))
+    (LayoutEq.refl _)
+
 end Tranp.C13
